@@ -18,8 +18,12 @@ Tie to the code (models: coq/theories/Components.v + Config.v, theorems: coq/pro
              a YAML file; one section, a nested list or two sections; ' or " quotes; the SAME description listed twice, one
              name with different arguments, the rest of the forest supplied as instances: spec + constructor, spec +
              add_components) - the parser must yield one component per description, in document order.  When
-             add_components refuses a batch on an existing context, setup is called all the same and what stayed
-             registered is observed (no roll-back: a prefix of the pre-order list).
+             add_components refuses a batch on an existing context (duplicate name, defaults clash between two new
+             components / with a registered one / with a manager, an object that is no component - one or two batches,
+             the offender at any position), setup is called all the same: what stayed registered must be consistent (no
+             component whose name or defaults were refused among it), the configuration read during that setup must be
+             the one the registered components make (on the key paths no refused component may have touched), and in a
+             second identical context a correct component of every unregistered name must be accepted afterwards.
   stream `cfg` : a stand-alone LayeredConfigTree driven by an operation sequence (the library model Config.v).
 Direct oracle (python, independent of the Coq model): every manager is set up once and before every probe; every node
 of the forest exactly once, after its parent; duplicate names and a manager's name are refused; a key path reads as
@@ -605,6 +609,10 @@ def gen_ctx(rng):
             "over": gen_cfgdict(rng, rng.choice([0.0, 0.15, 0.3])), "via": via,
             "spec_as": rng.choice(["tree", "none_if_empty"]), "attempts": gen_attempts(rng, p_del),
             "outside": gen_attempts(rng, p_del) if rng.random() < 0.5 else []}
+    if via in ("add", "spec+add") and len(forest) > 1 and rng.random() < 0.5:
+        case["split"] = rng.randint(1, len(forest) - 1)       # two add_components calls (clashes with what is registered already)
+    if via == "add" and rng.random() < 0.12:
+        case["junk"] = {"kind": rng.choice(list(JUNK)), "pos": rng.randint(0, 4), "nested": rng.random() < 0.3}
     if via.startswith("spec"):
         comps = [i for i, it in enumerate(forest) if "c" in it]
         lead = 0
@@ -677,13 +685,14 @@ def build_objects(items, Probe, shared):
     return out
 
 
-def ccops(paths, events):
+def ccops(paths, events, only=None):
     """the events of one context (reads of every probe, the first probe's attempts, the attempts from outside after
     setup) as ONE sequential cop list"""
     out = []
     for ev in events:
         if ev[0] == "reads":
-            out += [f"CGet {cpath(p)} {cpair(cz(c), cz(val_id(v) if c == 0 else 0))}" for p, (c, v) in zip(paths, ev[2])]
+            out += [f"CGet {cpath(p)} {cpair(cz(c), cz(val_id(v) if c == 0 else 0))}"
+                    for i, (p, (c, v)) in enumerate(zip(paths, ev[2])) if only is None or i in only]
             continue
         _, _, at, code, _ = ev
         if at["kind"] == "update":
@@ -703,10 +712,14 @@ def finding_of_ctx(case, res):
     return "F-AA" if classes and set(classes) == {"F-AA"} else None
 
 
-def run_ctx(case):
+JUNK = {"int": 42, "str": "not a component", "none": None, "obj": object}
+
+
+def realise(case, retry_names=()):
+    """Build ONE real context for the case and set it up; `retry_names`: after a refused add_components, components of
+    these names (fresh objects, no defaults) are added before setup.  Returns every observation as a dict."""
     from layered_config_tree import LayeredConfigTree
     from vivarium.framework.engine import SimulationContext
-    t = ensure_table()
     boot.reset_contexts()
     Probe = make_probe_class()
     shared = {"log": [], "events": [], "paths": PATHS, "attempts": case["attempts"], "attempted": False, "cfg": None}
@@ -724,7 +737,12 @@ def run_ctx(case):
     rest = forest[n_spec:]
     if any("g" in it for it in rest) and via in ("ctor", "spec+ctor"):
         via = "add" if via == "ctor" else "spec+add"   # a nested list at top level can only be handed to add_components
-    objs = build_objects(rest, Probe, shared)
+    # the batches handed to add_components (one, or two; the last one may hold an object that is no component)
+    split = case.get("split")
+    batches = [rest]
+    if via in ("add", "spec+add") and split is not None and 0 < split < len(rest):
+        batches = [rest[:split], rest[split:]]
+    junk = case.get("junk") if via in ("add", "spec+add") else None
     spec = case["spec"]
     spec_tree = {"configuration": spec}
     yaml_path = None
@@ -744,17 +762,37 @@ def run_ctx(case):
     else:
         ms = None if (case["spec_as"] == "none_if_empty" and not spec and not n_spec) else LayeredConfigTree(spec_tree)
     built, setup_ok, build_err, setup_err = True, None, None, None
-    sim, add_refused = None, False
+    sim, add_refused, junk_refused, accepted_batches, retry_err = None, False, False, 0, None
     user = case.get("user") or {}
     with Home(user), Recording() as rec:
         try:
-            sim = SimulationContext(model_specification=ms, components=objs if via in ("ctor", "spec+ctor") else [],
+            sim = SimulationContext(model_specification=ms, components=build_objects(rest, Probe, shared) if via in ("ctor", "spec+ctor") else [],
                                     configuration=case["over"], logging_verbosity=0)
             if via in ("add", "spec+add"):
-                try:
-                    sim.add_components(objs)
-                except Exception as e:  # noqa: BLE001
-                    built, build_err, add_refused = False, e, True
+                for bi, batch in enumerate(batches):
+                    objs = build_objects(batch, Probe, shared)
+                    is_last = bi == len(batches) - 1
+                    if junk is not None and is_last:
+                        thing = JUNK[junk["kind"]]
+                        thing = thing() if junk["kind"] == "obj" else thing
+                        if junk.get("nested") and objs and hasattr(objs[0], "vp_subs"):
+                            objs[0].vp_subs = list(objs[0].vp_subs) + [thing]        # among the sub-components of the first one
+                        else:
+                            objs.insert(min(junk.get("pos", 0), len(objs)), thing)
+                    try:
+                        sim.add_components(objs)
+                        accepted_batches += 1
+                    except Exception as e:  # noqa: BLE001
+                        built, build_err, add_refused = False, e, True
+                        junk_refused = junk is not None and is_last
+                        break
+                if add_refused:
+                    for n in retry_names:          # a correct component of a name that is NOT registered must be accepted
+                        try:
+                            sim.add_components([Probe(n, {}, [], shared)])
+                        except Exception as e:  # noqa: BLE001
+                            retry_err = (n, e)
+                            break
         except Exception as e:  # noqa: BLE001
             built, build_err = False, e
     boot.quiet_logging()
@@ -788,12 +826,33 @@ def run_ctx(case):
             partial = (bool(setup_ok), list(shared["log"]))
         elif setup_ok and case.get("outside") and shared["cfg"] is not None:
             run_attempts(shared["cfg"], PATHS, case["outside"], shared["events"], "after_setup")
+    model_forest = forest
+    if junk_refused:                             # the model sees what the earlier batches held
+        model_forest = forest[:n_spec] + (batches[0] if len(batches) > 1 else [])
+    return dict(shared=shared, via=via, n_spec=n_spec, spec=spec, user=user, built=built, setup_ok=setup_ok, build_err=build_err,
+                setup_err=setup_err, partial=partial, yaml=bool(yaml_path), junk_refused=junk_refused, model_forest=model_forest,
+                retry_err=retry_err, add_refused=add_refused)
+
+
+def overlaps_path(p, q):
+    p, q = tuple(p), tuple(q)
+    return p[:len(q)] == q or q[:len(p)] == p
+
+
+def run_ctx(case):
+    t = ensure_table()
+    o = realise(case)
+    shared, via, n_spec, spec, user = o["shared"], o["via"], o["n_spec"], o["spec"], o["user"]
+    built, setup_ok, build_err, setup_err, partial = o["built"], o["setup_ok"], o["build_err"], o["setup_err"], o["partial"]
+    yaml_path = o["yaml"]
+    forest = o["model_forest"]
     # ---------------- direct oracle ----------------
     failures = []        # (class, message)
 
     def fail(m, cls="other"):
         failures.append((cls, m))
-    flat, edges = flat_names(case["forest"])
+    flat, edges = flat_names(forest)          # (with a refused non-component batch: what the earlier batches held)
+    junk_refused = o["junk_refused"]
     names = [n for n, _ in flat]
     mnames = [n for n, _ in t["managers"]]
     dup = len(set(names)) != len(names)
@@ -815,7 +874,9 @@ def run_ctx(case):
         return any(pa != pb and (pa[:len(pb)] == pb or pb[:len(pa)] == pa) for pa in a for pb in b)
     struct = any(structural(a, b) for i, a in enumerate(sources) for b in sources[i:])
     both_user = set(sources[0]) & set(sources[1])
-    if not (dup or clash or struct or both_user) and not built:
+    if case.get("junk") and o["add_refused"] is False and built and via in ("add", "spec+add"):
+        fail(f"a batch holding an object that is no component ({case['junk']}) was accepted")
+    if not (dup or clash or struct or both_user or junk_refused) and not built:
         fail(f"a legitimate context was refused ({build_err!r}): components {names}, model specification {case['spec']}, "
              f"keyword arguments {case['over']} - user values for keys that components default must be accepted")
     if not (dup or clash or struct or both_user or like_manager) and built and not setup_ok:
@@ -832,6 +893,69 @@ def run_ctx(case):
         for p, c in edges:
             if names.count(c) == 1 and c in clog and (p not in clog or clog.index(p) > clog.index(c)):
                 fail(f"after a refused add_components {c} was set up without / before its parent {p}: {clog}")
+        # ... and it is CONSISTENT: no component whose defaults were refused is among the registered ones
+        unique = {n: d for n, d in flat if names.count(n) == 1}
+        reg_leaves = {}
+        for n, d in t["managers"] + [(n, unique[n]) for n in clog if n in unique]:
+            for pth, v in leaves(d):
+                reg_leaves.setdefault(pth, []).append((n, v))
+        for pth, who in reg_leaves.items():
+            if len(who) > 1:
+                fail(f"after a refused add_components {[w for w, _ in who]} are all registered / set up although they default the same "
+                     f"key {'.'.join(pth)}: the component whose defaults were refused must not stay registered")
+        # key paths no refused component may have touched (a refused component's update can be applied in part, a
+        # duplicate-named one in full, before the refusal): everything else must read as the registered components make it
+        dirty = []
+        others = [dict(leaves(case["spec"])), dict(leaves(case["over"])), dict(leaves(user))] + \
+                 [dict(leaves(d)) for _, d in t["managers"]] + [dict(leaves(unique[n])) for n in clog if n in unique]
+        for n, d in flat:
+            if n in clog and names.count(n) == 1:
+                continue
+            mine = dict(leaves(d))
+            may_leak = names.count(n) != 1 or any(q in reg_leaves for q in mine) or any(structural(mine, x) for x in others)
+            if may_leak:
+                dirty += list(mine)
+        clean_idx = [i for i, pth in enumerate(PATHS) if not any(overlaps_path(pth, q) for q in dirty)]
+        reads = [ev for ev in shared["events"] if ev[0] == "reads"]
+        if reads:
+            over_l, spec_l, user_l = dict(leaves(case["over"])), dict(leaves(case["spec"])), dict(leaves(user))
+            for i in clean_idx:
+                tp = tuple(PATHS[i])
+                code, v = reads[0][2][i]
+                if tp in over_l:
+                    want = over_l[tp]
+                elif tp in spec_l:
+                    want = spec_l[tp]
+                elif tp in reg_leaves and len(reg_leaves[tp]) == 1:
+                    want = reg_leaves[tp][0][1]
+                    if tp in user_l:
+                        lay_d = t["l_mgr"] if reg_leaves[tp][0][0] in mnames else t["l_comp"]
+                        if t["layers"].index(t["l_user"]) > t["layers"].index(lay_d):
+                            want = user_l[tp]
+                elif tp not in reg_leaves and tp in user_l:
+                    want = user_l[tp]
+                elif tp not in reg_leaves and not any(overlaps_path(tp, q) for src in others for q in src):
+                    if code == 0:
+                        fail(f"after a refused add_components {'.'.join(tp)} reads {v!r} although no registered component, manager "
+                             f"or user source sets it: defaults of a component that is NOT registered are in the configuration")
+                    continue
+                else:
+                    continue
+                if code != 0 or json.dumps(v, default=str) != json.dumps(want, default=str):
+                    fail(f"after a refused add_components {'.'.join(tp)} reads {(code, v)}, expected {want!r} from what is registered")
+            if any(r[2] != reads[0][2] for r in reads):
+                fail("two components saw different configurations during the setup after a refused add_components")
+        # a correct component of a name that is not registered must be accepted afterwards (second, identical context)
+        retry = [n for n in dict.fromkeys(names) if n not in clog and n not in mnames]
+        if retry:
+            o2 = realise(case, retry_names=retry)
+            if o2["retry_err"] is not None:
+                fail(f"after a refused add_components, {o2['retry_err'][0]} is not registered, yet a new component of that name is refused: "
+                     f"{o2['retry_err'][1]!r}")
+            elif o2["partial"] is not None and o2["partial"][0]:
+                log2 = o2["shared"]["log"][nm:]
+                if sorted(log2) != sorted(clog + retry):
+                    fail(f"after a refused add_components and a correct add of {retry}: components set up {log2}, expected {sorted(clog + retry)}")
     if built and setup_ok:
         if sorted(log[:nm]) != sorted(mnames):
             fail(f"the first {nm} set-up calls are {log[:nm]}, not the managers {mnames}")
@@ -890,10 +1014,12 @@ def run_ctx(case):
         msg = others[0]
     # ---------------- Coq ----------------
     cops = ccops(PATHS, shared["events"]) if (built and setup_ok and shared["events"]) else "[]"
+    if partial is not None and partial[0] and shared["events"]:
+        cops = ccops(PATHS, shared["events"], only=clean_idx)
     cpartial = "None" if partial is None else "(Some (%s, %s))" % (cbool(partial[0]), czlist(NAMES(n) for n in partial[1]) if partial[0] else "[]")
-    coq = ("{| x_forest := %s; x_user := %s; x_spec := %s; x_over := %s; x_built := %s; x_setup := %s; x_log := %s; x_partial := %s; x_cops := %s |}" % (
-        clist(citem(it) for it in case["forest"]), cdict(user), cdict(spec), cdict(case["over"]), cbool(built), cbool(bool(setup_ok) and built),
-        czlist(NAMES(n) for n in log) if (built and setup_ok) else "[]", cpartial, cops))
+    coq = ("{| x_forest := %s; x_user := %s; x_spec := %s; x_over := %s; x_built := %s; x_setup := %s; x_log := %s; x_junk := %s; x_partial := %s; x_cops := %s |}" % (
+        clist(citem(it) for it in forest), cdict(user), cdict(spec), cdict(case["over"]), cbool(built), cbool(bool(setup_ok) and built),
+        czlist(NAMES(n) for n in log) if (built and setup_ok) else "[]", cbool(junk_refused), cpartial, cops))
     exact = (built and setup_ok and log[len(mnames):] == names)
     ndel = sum(1 for a in case["attempts"] + case.get("outside", []) if a["kind"] in ("del", "delattr"))
     tags = ("built" if built else "build_rejected:" + type(build_err).__name__,
@@ -902,7 +1028,8 @@ def run_ctx(case):
             f"n{min(len(names), 14) // 3 * 3}", "dup" if dup else "nodup", "clash" if clash else "noclash", "via_" + via,
             ("spec_yaml" if yaml_path else "spec_tree") if n_spec else "no_spec_block",
             "spec_dup" if n_spec and len({it["c"] for it in forest[:n_spec]}) < n_spec else "spec_nodup",
-            "deletions" if ndel else "no_deletions", "user_yaml" if user else "no_user_yaml") + ((("preorder_exact" if exact else "other_valid_order"),) if built and setup_ok else ())
+            "deletions" if ndel else "no_deletions", "user_yaml" if user else "no_user_yaml") + \
+           ((("refused_nonComponent" if junk_refused else "refused_" + type(build_err).__name__),) if partial is not None else ()) + ((("preorder_exact" if exact else "other_valid_order"),) if built and setup_ok else ())
     nontrivial = bool(names) or bool(spec) or bool(case["over"]) or bool(user)
     return Result(ok=ok, msg=msg, coq=coq, key=json.dumps(case, sort_keys=True) if nontrivial else None,
                   obs={"built": built, "setup": setup_ok, "log": log[len(mnames):][:20], "error": repr(build_err or setup_err)[:200],
@@ -934,6 +1061,9 @@ def shrink_ctx(case):
             yield dict(case, **{lst: case[lst][:i] + case[lst][i + 1:]})
     if case.get("via") not in ("add", None):
         yield dict(case, via="add")
+    for k in ("split", "junk"):
+        if case.get(k) is not None:
+            yield {x: v for x, v in case.items() if x != k}
     if (case.get("spec_style") or {}).get("yaml"):
         yield dict(case, spec_style=dict(case["spec_style"], yaml=False))
     if (case.get("spec_style") or {}).get("nest", "flat") != "flat":
